@@ -4,4 +4,5 @@ let table : (string * (Model.sexp -> Model.sexp)) list = [
   "c17", Model.c17_check;
   "interp", Model.interp_check;
   "c19", Model.c19_check;
+  "c18", Model.c18_check;
 ]
